@@ -51,9 +51,9 @@ def deterministic_eigsh():
 
 
 def dense_query(kind, n, rng):
-    if kind in ('dense', 'none', 'sparse', 'linop'):
+    if kind in ('dense', 'none', 'sparse', 'linop', 'booleye'):
         return np.eye(n)
-    if kind == 'prefix':
+    if kind in ('prefix', 'intprefix'):
         return np.tril(np.ones((n, n)))
     if kind == 'tall':
         return rng.randn(n + 2, n)
@@ -75,6 +75,10 @@ def wrap(kind, Qd):
         return sparse.csr_matrix(Qd)
     if kind == 'linop':
         return aslinearoperator(Qd)
+    if kind == 'intprefix':     # the same query written with integer entries
+        return Qd.astype(np.int64)
+    if kind == 'booleye':
+        return Qd.astype(bool)
     return Qd
 
 
